@@ -75,6 +75,14 @@ for _d in _zoo.corpus():
             CONCRETE["err"].append(dict(_d["job"], text=_d["text"]))
 CONCRETE["ok"].append({"entry": "none", "queries": [q for q in _zoo.QUERIES if q][:40], "query_builder": "tiga"})
 CONCRETE["ok"].append({"entry": "none", "queries": [q for q in _zoo.QUERIES if q][40:], "query_builder": "property"})
+ROOT_SETTERS = [{"entry": "xta", "text": XTA_OK}, {"entry": "xta", "text": XTA_OK.replace("A -> A", "A -u-> A")},
+                {"entry": "xta", "text": "int i; clock x;\nprocess P { state A { x <= 3 }, B; init A; trans A -> B { guard i < 2; }, -> A { }; }\nsystem P;\n", "newxta": False},
+                {"entry": "part", "part": "S_XTA_PROCESS", "text": "process P() { state A, B; init A; trans B -> A { }; }"}]
+ROOT_PROBES = [{"entry": "xta", "text": "process Q() { state A, B; init A; trans -> B { }; }\nsystem Q;\n"},
+               {"entry": "xta", "text": "process Q() { state A, B; init A; trans -u-> B { }, A -> B { }; }\nsystem Q;\n"},
+               {"entry": "xta", "text": "process Q { state A, B; init A; trans -> B { }; }\nsystem Q;\n", "newxta": False},
+               {"entry": "xta", "text": "process Q { state A, B; init A; trans -> B { }, B -> A { }, -> B { }; }\nsystem Q;\n", "newxta": False},
+               {"entry": "part", "part": "S_XTA_PROCESS", "text": "process Q() { state A, B; init A; trans -> A { }; }"}]
 BIG = {"big31": 2 ** 31 - 20, "big32": 2 ** 32 - 20, "big31b": 2 ** 31 - 3, "big32b": 2 ** 32 - 3}
 
 
@@ -245,6 +253,12 @@ def run(tier):
         if rnd.random() < 0.3:
             calls[rnd.randrange(len(calls))]["set_position"] = rnd.choice(list(BIG.values()))
         jobs.append({"id": "r%d" % n, "calls": calls, "abstract": ks, "timeout": 120})
+    # the grammar's own statics (the source location remembered for `-> B { }` continuation entries of a `trans` list): a text whose list
+    # begins with a continuation entry has no source of its own, so what it gives must not depend on the transitions of earlier texts
+    for a, st in enumerate(ROOT_SETTERS):
+        for b, pr in enumerate(ROOT_PROBES):
+            jobs.append({"id": "root%d_%d" % (a, b), "calls": [dict(st), dict(pr)], "abstract": ["ok", "err"], "timeout": 120})
+            jobs.append({"id": "root%d_%d_%d" % (a, b, b), "calls": [dict(st), dict(pr), dict(st), dict(pr)], "abstract": ["ok", "err", "ok", "err"], "timeout": 120})
     for j in jobs:
         last_keep = None
         for cl in j["calls"]:
